@@ -321,6 +321,76 @@ def case_seasurface(case):
     return obs
 
 
+def case_properties(mapping):
+    """The conductivities handed to skin_depth (hence minimum width and
+    buffer) are the back-mapped `properties`, for every mapping and 1, 2, 3
+    given values (symbolic; log/exp axiomatised)."""
+    E = shadow.load()
+    c = set_ctx(Ctx(timeout_ms=60000))
+    State.OBJECT_ALLOC = True
+    M = E.meshes
+    grp = f"properties -> skin depth, mapping={mapping}"
+    saved = [(M, n, getattr(M, n)) for n in ('skin_depth', 'cell_width',
+                                             'wavelength', 'np')]
+    had_float = hasattr(M, 'float')
+    rec = []
+
+    class Stop(Exception):
+        pass
+
+    def fake_sd(f, cond, *a, **k):
+        rec.append([Q._co(v) for v in np.asarray(cond, dtype=object).ravel()])
+        raise Stop()
+    M.skin_depth = fake_sd
+    M.float = symx.symfloat
+    Mp = getattr(E.maps, 'Map'+mapping)()
+    bad = None
+    obs = []
+    try:
+        for n in (1, 2, 3):
+            del rec[:]
+            sig = [Q.var(f"sig{n}_{k}") for k in range(n)]
+            for v in sig:
+                c.assume(B(v.t > 0))
+            props = Mp.forward(np.array(sig, dtype=object).view(
+                symx.SymArray))
+            try:
+                M.origin_and_widths(1.0, list(props), 0.0,
+                                    domain=[-1.0, 1.0], mapping=mapping,
+                                    center_on_edge=False)
+            except Stop:
+                pass
+            if len(rec) != 1 or len(rec[0]) != 3:
+                bad = f"skin_depth called with {rec}"
+                break
+            want = [sig[0], sig[min(n-1, 1)], sig[min(n-1, 2)]]
+            for got, w_ in zip(rec[0], want):
+                if c.valid(symx.qt(got) == symx.qt(w_),
+                           label='cond')[0] != 'held':
+                    bad = (f"{n} properties: conductivity handed to "
+                           f"skin_depth is not the back-mapped property")
+                    break
+            if bad:
+                break
+    finally:
+        for mod, nm, val in saved:
+            setattr(mod, nm, val)
+        if not had_float:
+            try:
+                del M.float
+            except AttributeError:
+                pass
+    if c.stats['forks']:
+        obs.append(ob("harness: unexpected fork", 'error', group=grp))
+    obs.append(ob("conductivities [centre, negative side, positive side] "
+                  "handed to skin_depth == backward(properties) for 1, 2, 3 "
+                  "values", 'cex' if bad else 'held', group=grp,
+                  cls='UF+NRA', note=bad or '',
+                  key=f"automatic gridding: {bad}" if bad else None,
+                  cex=dict(kind='props', mapping=mapping) if bad else None))
+    return obs
+
+
 def case_cell_numbers(_):
     """good_mg_cell_nr is a pure function of its three arguments: a grid of
     argument triples in several call orders against the specification
@@ -363,6 +433,27 @@ def replay(cex):
     import emg3d
     from scipy.constants import mu_0
     warnings.filterwarnings('ignore')
+    if cex.get('kind') == 'props':
+        mp = cex['mapping']
+        Mp = getattr(emg3d.maps, 'Map'+mp)()
+        got = []
+        real = emg3d.meshes.skin_depth
+
+        def spy(f_, cond, *a, **k):
+            got.append(np.array(cond, dtype=float))
+            return real(f_, cond, *a, **k)
+        emg3d.meshes.skin_depth = spy
+        try:
+            sig = np.array([0.05, 3.0, 0.002])
+            emg3d.meshes.origin_and_widths(
+                1.0, list(Mp.forward(sig)), 0.0, domain=[-1000., 1000.],
+                mapping=mp, center_on_edge=False)
+        finally:
+            emg3d.meshes.skin_depth = real
+        bad = not got or not np.allclose(got[0], sig, rtol=1e-9, atol=0)
+        return bad, (f"real origin_and_widths (mapping {mp}): conductivities "
+                     f"used for the skin depth {got[0] if got else None} vs "
+                     f"back-mapped properties {sig}")
     if cex.get('kind') == 'cellnr':
         def spec(max_nr, max_lowest, min_div):
             low = [p for p in (2, 3, 5, 7, 9, 11, 13, 15, 17, 19)
@@ -504,6 +595,9 @@ def main(tier):
     jobs = [('case_direction', x) for x in cases]
     jobs += [('case_seasurface', (True,)), ('case_seasurface', (False,)),
              ('case_cell_numbers', None)]
+    jobs += [('case_properties', m_) for m_ in (
+        'Conductivity', 'LgConductivity', 'LnConductivity', 'Resistivity',
+        'LgResistivity', 'LnResistivity')]
     obs = pmap(_dispatch, jobs)
     run.add(obs)
     run.bounds = dict(
